@@ -51,10 +51,28 @@ pub fn mk_tim(p: &Value, tm: &dyn TimeMap) -> TimingPoint {
         time_signature: TimeSignature::new(geti(p, "sig") as i32).expect("sig"),
     }
 }
+/// thousandths -> f64; negative abstract values stand for non-finite ones (-1 NaN, -2 infinity)
+fn unmilli(v: i64) -> f64 {
+    match v {
+        -1 => f64::NAN,
+        -2 => f64::INFINITY,
+        _ => v as f64 / 1000.0,
+    }
+}
+fn milli_nf(x: f64) -> Value {
+    if x.is_nan() {
+        json!(-1)
+    } else if x == f64::INFINITY {
+        json!(-2)
+    } else {
+        milli(x)
+    }
+}
+
 pub fn mk_dif(p: &Value, tm: &dyn TimeMap) -> DifficultyPoint {
     DifficultyPoint {
         time: tm.real(geti(p, "t")),
-        slider_velocity: geti(p, "sv") as f64 / 1000.0,
+        slider_velocity: unmilli(geti(p, "sv")),
         generate_ticks: getb(p, "ticks"),
     }
 }
@@ -62,7 +80,7 @@ pub fn mk_eff(p: &Value, tm: &dyn TimeMap) -> EffectPoint {
     EffectPoint {
         time: tm.real(geti(p, "t")),
         kiai: getb(p, "kiai"),
-        scroll_speed: geti(p, "scroll") as f64 / 1000.0,
+        scroll_speed: unmilli(geti(p, "scroll")),
     }
 }
 pub fn mk_smp(p: &Value, tm: &dyn TimeMap) -> SamplePoint {
@@ -88,10 +106,10 @@ pub fn proj_tim(p: &TimingPoint, tm: &dyn TimeMap) -> Value {
            "sig": p.time_signature.numerator.get()})
 }
 pub fn proj_dif(p: &DifficultyPoint, tm: &dyn TimeMap) -> Value {
-    json!({"t": tm.abs(p.time), "sv": milli(p.slider_velocity), "ticks": p.generate_ticks})
+    json!({"t": tm.abs(p.time), "sv": milli_nf(p.slider_velocity), "ticks": p.generate_ticks})
 }
 pub fn proj_eff(p: &EffectPoint, tm: &dyn TimeMap) -> Value {
-    json!({"t": tm.abs(p.time), "kiai": p.kiai, "scroll": milli(p.scroll_speed)})
+    json!({"t": tm.abs(p.time), "kiai": p.kiai, "scroll": milli_nf(p.scroll_speed)})
 }
 pub fn proj_smp(p: &SamplePoint, tm: &dyn TimeMap) -> Value {
     json!({"t": tm.abs(p.time), "bank": p.sample_bank as i32, "vol": p.sample_volume,
@@ -219,9 +237,9 @@ pub fn record(args: &Args, s: &mut Summary) {
                 let p = match k {
                     "tim" => json!({"t": t, "bl": *rng.pick(&[500, 250, 6, 60000]), "omit": rng.chance(1, 3),
                                      "sig": *rng.pick(&[4, 3, 7])}),
-                    "dif" => json!({"t": t, "sv": *rng.pick(&[1000, 2000, 500, 1000, 50, 20000]), "ticks": rng.chance(4, 5)}),
-                    "eff" => json!({"t": t, "kiai": rng.chance(1, 2), "scroll": *rng.pick(&[1000, 1000, 250, 5, 20000])}),
-                    _ => json!({"t": t, "bank": *rng.pick(&[1, 2, 3]), "vol": *rng.pick(&[100, 50, 0, 100, 150, 0, -20]),
+                    "dif" => json!({"t": t, "sv": *rng.pick(&[1000, 2000, 500, 1000, 50, 20000, -1, -2, 1000]), "ticks": rng.chance(4, 5)}),
+                    "eff" => json!({"t": t, "kiai": rng.chance(1, 2), "scroll": *rng.pick(&[1000, 1000, 250, 5, 20000, -1, -2])}),
+                    _ => json!({"t": t, "bank": *rng.pick(&[1, 2, 3, 0, 1]), "vol": *rng.pick(&[100, 50, 0, 100, 150, 0, -20]),
                                  "custom": *rng.pick(&[0, 0, 2])}),
                 };
                 let r = guarded("cp record add", || {
